@@ -109,11 +109,12 @@ CHECKS["C06"] = dict(
 
 CHECKS["C13"] = dict(
     technique="property-based testing (rapid) with fault injection: generated graphs x fault plans x paradigms; oracle = reference model says which injected failure executes + errors.Is/As/text/sentinel/cancellation contract + process survival",
-    level_text="Generated-input search with injected faults: 1-3 lambdas (any nesting level, also several in one step) return a wrapped custom error, panic, deliver an error item or a panic on their output stream, or cancel the context; all four paradigms. When the reference model says an injected failure executes, the call must fail, errors.Is/As must recover the injected error of one of the failing nodes, the text must name its node path outer->inner->key, panics must be reported as errors; the step-limit sentinel and context.Canceled must be matchable with errors.Is. A panic that kills the test process is reported as a violation through the current-case file.",
+    level_text="Generated-input search with injected faults: 1-3 lambdas (any nesting level, also several in one step) return a wrapped custom error, panic, deliver an error item or a panic on their output stream, or cancel the context; all four paradigms. When the reference model says an injected failure executes, the call must fail, errors.Is/As must recover the injected error of one of the failing nodes, the text must name its node path outer->inner->key, panics must be reported as errors; the step-limit sentinel and context.Canceled must be matchable with errors.Is. A panic that kills the test process is reported as a violation through the current-case file. A second part works on package schema directly: merges of 2-4 sources some of which are converted readers / copy children whose convert function panics at a generated item index (0-13, i.e. with the forwarding buffer empty, partly filled or full) with a lagging reader; per panicking source exactly the items before the panic, then one error item mentioning the panic, must arrive, then EOF.",
     level_note="For failures that travel on a stream in stream-mode paradigms only survival/return is asserted here (whether such a stream is read is decided by C04's influence analysis). Node path naming is not asserted below chain levels (chain node keys are generated by the framework).",
     rule="rapid draws a GraphSpec (all modes, nested, paradigm subsets) and a fault plan; non-trivial = the model executes an injected failure and (it sits at nesting depth >= 1, or >= 2 failing nodes execute in the failing step, or the failure travels on a stream); distinct = FNV-1a of case JSON",
     assumptions=GRAPH_ASSUME,
-    parts=[rapid_part("rapid", "compose", "TestC13", 4000, 40000, replay_test="TestC13Replay")],
+    parts=[rapid_part("rapid", "compose", "TestC13", 4000, 40000, replay_test="TestC13Replay"),
+           rapid_part("forwarder", "schema", "TestC13Forwarder", 1500, 8000, shards=8, replay_test="TestC13ForwarderReplay", replay_reps=5)],
 )
 
 CHECKS["C08"] = dict(
@@ -133,6 +134,15 @@ CHECKS["C14"] = dict(
     assumptions=["reflect.DeepEqual on the resulting messages is the equality meant by 'same result'"],
     parts=[rapid_part("rapid", "schema", "TestC14", 30000, 300000, replay_test="TestC14Replay"),
            fuzz_part("fuzz", "schema", "FuzzC14", 90)],
+)
+
+CHECKS["C20"] = dict(
+    technique="property-based testing (rapid) over Add*/Append*/Compile call sequences for Graph, Chain and Workflow builders; oracle = no panic + reference well-formedness predicate (one direction) + sticky error + identical outcome over 5 replays + immutability/unaffected runnable after Compile",
+    level_text="Generated call sequences (3-25 calls) over the three builders with keys from a pool containing reserved, duplicate and unknown keys, every violation kind of the statement at any position (reserved/unknown/duplicate keys, duplicate edges, END as source / START as target, missing entry or exit, single-target branches, state handler without state, node-key option outside chains, parallel/branch misuse in chains, trigger-mode and step-limit options in the wrong mode, cycles in all-predecessor mode), further Add*/Compile calls after a successful Compile, the whole sequence replayed 5 times on fresh builders. No call may panic; a sequence containing a listed violation must have produced an error by the end of Compile; after the first failing Add* everything fails; the index of the first failing call and Compile's success are identical in all replays; after a successful Compile every Add* on a Graph fails and the first runnable answers three sample inputs exactly as before, also after a second Compile.",
+    level_note="The well-formedness reference is used in one direction only (violation => error); nothing is asserted about sequences it considers fine. Type inference of pass-through nodes is C07's business and not asserted here beyond determinism.",
+    rule="rapid draws a builder kind, optional state and a call sequence; non-trivial = >= 6 calls and either the sequence compiled or its first failing call is not among the first two; the evidence histogram lists the violation kinds hit; distinct = FNV-1a of case JSON",
+    assumptions=["all lambdas are string->string (map->string after a parallel) so that type mismatches do not mask construction errors"],
+    parts=[rapid_part("rapid", "compose", "TestC20", 6000, 60000, replay_test="TestC20Replay")],
 )
 
 # properties not claimed (with reason); everything else not in CHECKS is "not built yet"
